@@ -56,7 +56,7 @@ func getData(data []byte, start uint64, size uint64) []byte {
 		start = length
 	}
 	end := start + size
-	if end > length {
+	if end > length || end < start { // end < start: the sum wrapped around
 		end = length
 	}
 	return utility.RightPadBytes(data[start:end], int(size))
